@@ -103,6 +103,9 @@ CHECKS = {
     "C14": dict(level="exploration", engine="kernels",
                 jobs=lambda t: J("kernels", "prod-hsw", ["--prop", "C14"]) + J("kernels", "asan-hsw", ["--prop", "C14"]) + J("kernels", "prod-wsm", ["--prop", "C14"]) + (J("kernels", "prod-dyn", ["--prop", "C14"]) if t == "thorough" else []),
                 rule="InlinedMemcmpEq == (memcmp==0) and sign(InlinedMemcmp)==sign(memcmp) for every length, every first-difference index, sign-sensitive byte pairs, a later opposite difference, both operands placed independently 0..40 bytes before an unmapped page / at every start offset mod 32; FindMember/HasMember with and without the lookup map agree with byte equality."),
+    "C04": dict(level="exploration", engine="numenum",
+                jobs=lambda t: J("numenum", "prod-hsw", []) + J("numenum", "asan-hsw", []) + (J("numenum", "prod-wsm", []) if t == "thorough" else []),
+                rule="number spellings of families N1..N6 parsed as root, array element and object member: integer that fits -> exact integer kind; otherwise IsDouble with the bit pattern of glibc strtod; overflow -> kParseErrorInfinity. For the halfway families (exact midpoints between adjacent doubles, one unit below/above, re-spelled with the point at every position and up to 1100 mantissa digits) the expected double is computed exactly by big-integer arithmetic in the harness and glibc is cross-checked against it."),
 }
 
 
